@@ -425,9 +425,65 @@ class Vi:
             if p is None:
                 return -1, r, o
             return c, p[0], p[1]
-        if c in '/?nN\x01`[]':
+        if c in '/?nN':
+            return self.search_motion(c, cnt, r, o)
+        if c in '\x01`[]':
             raise Unknown('motion %r is not modelled here' % c)
         return None, r, o
+
+    def search_motion(self, c, cnt, r, o):
+        """/pat, ?pat (literal patterns), optional line offset after the closing delimiter, n, N (C13 semantics: whole-line matching,
+        first match after / last match before the cursor, no wrap-around)"""
+        import c13
+        if c in '/?':
+            self.read()
+            txt = ''
+            while True:
+                k = self.read()
+                if k == '':
+                    raise Unknown('unterminated search')
+                if k == '\n':
+                    break
+                if ord(k) < 32 or k == '\x7f':
+                    raise Unknown('editing keys in a search prompt')
+                txt += k
+            pat, _, off = txt.partition(c)
+            if any(ch in pat for ch in '\\.[]*+?(){}|^$/<>&~'):
+                raise Unknown('search pattern with operators')
+            d = 1 if c == '/' else -1
+            if pat:
+                self.kwd = (pat, d)
+            elif getattr(self, 'kwd', None):
+                self.kwd = (self.kwd[0], d)
+            off = off.strip()
+            self.soset = bool(off)
+            try:
+                self.so = int(off) if off else 0
+            except ValueError:
+                raise Unknown('odd search offset')
+            dirn = d
+        else:
+            self.read()
+            if not getattr(self, 'kwd', None):
+                raise Unknown('search without a previous pattern (the initial keyword is the empty pattern)')
+            dirn = self.kwd[1] if c == 'n' else -self.kwd[1]
+        if not getattr(self, 'kwd', None):
+            raise Unknown('search without a previous pattern (the initial keyword is the empty pattern)')
+        if not self.n():
+            return -1, r, o
+        lines = [self.lz(i).rstrip('\n') for i in range(self.n())]
+        M = c13.Model(lines, True)
+        cr, co = r, o
+        for _ in range(cnt):
+            res = M.search(('lit', self.kwd[0]), cr, co, dirn)
+            if res is None:
+                return -1, r, o
+            cr, co, _ = res
+        if getattr(self, 'soset', False):
+            if not (0 <= cr + self.so < self.n()):
+                return -1, r, o
+            return c, cr + self.so, -1
+        return c, cr, co
 
     def wfix(self):
         n = self.n()
